@@ -190,7 +190,7 @@ func progressIsNegative(v ssa.Value) bool {
 		}
 		return true
 	case *ssa.Global:
-		return a.Name() == "noProgress" && globalIsZeroProgress(a)
+		return globalIsZeroProgress(a)
 	}
 	return false
 }
